@@ -79,6 +79,8 @@ def containers(tree):
         elif c is ast.Call:
             if not node.keywords and not any(isinstance(a, (ast.Starred, ast.GeneratorExp)) for a in node.args):
                 add('args', 'expr')
+            elif node.keywords and not any(isinstance(a, ast.GeneratorExp) for a in node.args) and lead_limit(node, 'args'):
+                add('args', 'expr')   # only requests inside the positional arguments that precede the first keyword are vetted
         elif c is ast.ClassDef:
             if not node.keywords and not any(isinstance(a, ast.Starred) for a in node.bases):
                 add('bases', 'expr')
@@ -222,6 +224,15 @@ def ddump(node):
     return ''.join(out)
 
 
+def lead_limit(node, field):
+    """For Call.args of a call that has keywords: how many of the positional arguments stand before the first keyword in
+    the source (a request that stays inside them has an unambiguous, valid result).  None = no restriction."""
+    if not (isinstance(node, ast.Call) and field == 'args' and node.keywords):
+        return None
+    first_kw = min((k.lineno, k.col_offset) for k in node.keywords)
+    return sum(1 for a in node.args if (a.lineno, a.col_offset) < first_kw)
+
+
 def norm_slice(n, a, b):
     """Python list slice normalisation; 'end' -> n.  Returns (a', b') or None if a' > b'."""
     def one(i):
@@ -292,6 +303,9 @@ class C03(Plugin):
             n = len(lst)
             pool = KINDS[kind][0]
             mode = rng.choice(['slice', 'slice', 'slice', 'one', 'del_one', 'insert', 'subview', 'subview'])
+            lim = lead_limit(node, field)
+            if lim is not None and mode == 'subview':
+                mode = 'insert'
             op = {'k': 'c03', 'mode': mode, 'path': [list(p) for p in path], 'field': field, 'kind': kind}
             if mode == 'subview':
                 op = self.gen_subview(rng, op, n, mn, pool, kind, tree)
@@ -329,6 +343,23 @@ class C03(Plugin):
                     el = 'pass'
                 op.update(idx=O.gen_index(rng, n + 1, cfg['wild']), elems=[el],
                           entry=rng.choice(['insert', 'view_insert', 'append', 'prepend']))
+            if lim is not None:  # the request must stay inside the leading positional arguments
+                if mode == 'slice':
+                    ns_ = norm_slice(n, op['a'], op['b'])
+                    if ns_ is None or ns_[1] > lim or not (ns_[0] < lim or lim == n):
+                        return None
+                elif mode in ('one', 'del_one'):
+                    i_ = op['idx'] if op['idx'] >= 0 else op['idx'] + n
+                    if not 0 <= i_ < lim:
+                        return None
+                elif mode == 'insert':
+                    if op['entry'] == 'append':
+                        if lim != n:
+                            return None
+                    elif op['entry'] != 'prepend':
+                        ns_ = norm_slice(n, op['idx'], op['idx'])
+                        if ns_ is None or not (ns_[0] < lim or lim == n):
+                            return None
             if kind == 'stmt' and rng.random() < 0.3:
                 op['opts'] = O.enc_opts(O.gen_options(rng, 1.0, ('trivia', 'pep8space', 'elif_', 'docstr')))
         # forks through the other entry points and the layout twin
